@@ -184,3 +184,26 @@ Example trace_refuses_overfull_channel :
   orun 1 oinit [OAccept 2; OAccept 6; OAccept 10; OPreWt 2; OPreWt 6; OPreWt 10; OSendBegin 2; OSendBegin 6;
                 OSendBegin 10; OSendEnd 2; OSendEnd 6; OSendEnd 10] = None.
 Proof. vm_compute. reflexivity. Qed.
+
+(* ---------- C07 on observed traces: nothing a stalled stream does (or fails to do) disables the worker ---------- *)
+(* in every state the validator can be in, however many streams sit in their tasks without a preamble,
+   with a parsed preamble waiting for a slot, or in a full channel: a further stream can be accepted *)
+Theorem observed_accept_never_blocked cap o id :
+  exited o = false -> mem id (opened (hs o)) = false -> ostep cap o (OAccept id) <> None.
+Proof.
+  intros E M. cbn [ostep]. rewrite E. cbn [step]. rewrite M. cbn [bind_hs step quinn_q].
+  destruct (quinn_q (hs o)); cbn; discriminate.
+Qed.
+
+(* and its preamble, once it arrives, is taken whatever the other streams are doing
+   (the validator's accept queue is empty between events: PeerOpen is synthesised right before WorkerAccept) *)
+Theorem observed_preamble_never_blocked cap o id o1 :
+  quinn_q (hs o) = [] -> ostep cap o (OAccept id) = Some o1 -> ostep cap o1 (OPreWt id) <> None.
+Proof.
+  intros Q. cbn [ostep]. destruct (exited o); [discriminate|]. cbn [step].
+  destruct (mem id (opened (hs o))); [discriminate|]. cbn [step quinn_q]. rewrite Q. cbn [app bind_hs with_hs].
+  intros [= <-]. unfold ostep, with_hs. cbn [hs step waiting].
+  assert (H : mem id (waiting (hs o) ++ [id]) = true).
+  { apply mem_In, in_or_app. right. left. reflexivity. }
+  rewrite H. cbn [bind_hs]. discriminate.
+Qed.
